@@ -312,6 +312,7 @@ def parse_rvalue(s):
     if s.startswith('&raw '):
         rest = s[5:].strip()
         rest = re.sub(r'^(const|mut)\s+', '', rest)
+        rest = re.sub(r'^\(fake\)\s*', '', rest)
         return ('ref', parse_place(rest))
     if s.startswith('&'):
         rest = s[1:].strip()
@@ -513,13 +514,14 @@ def _find_assign(s):
 
 class Fn:
     __slots__ = ('name', 'key', 'nargs', 'blocks', 'locals', 'self_type', 'ret_type', 'arg_types',
-                 'kind', 'promoted_of', 'promoted_idx', 'text_line', 'debug', 'allocs')
+                 'kind', 'promoted_of', 'promoted_idx', 'text_line', 'debug', 'allocs', 'captures')
 
     def __init__(self):
         self.blocks = {}
         self.locals = {}
         self.debug = {}
         self.allocs = {}
+        self.captures = []
         self.kind = 'fn'
         self.promoted_of = None
         self.promoted_idx = None
@@ -613,6 +615,9 @@ def parse_mir(text):
                 md = re.match(r'^debug (\w+) => _(\d+);$', s)
                 if md:
                     f.debug.setdefault(md.group(1), int(md.group(2)))
+                mc = re.match(r'^debug (\w+) => .*\b_1\)?\.\d+', s)
+                if mc and mc.group(1) not in f.captures:
+                    f.captures.append(mc.group(1))      # a variable captured by this closure
             i += 1
         fns.append(f)
         i += 1
